@@ -53,6 +53,9 @@ def run(check: Check) -> None:
     ownership(check)
     engine_init(check)
     fixtures(check)
+    from .common import memoisation_rule
+
+    memoisation_rule(check)
 
 
 def only_deactivate(a: c08.Activate) -> None:
